@@ -22,6 +22,7 @@ type Assume struct {
 	tag      string // definition that a discharged helper lemma may replace
 	groundAx bool   // ground instance of a heap axiom: only needed once something has been allocated
 	heapAx   bool   // heap well-formedness axiom: only needed once something has been allocated
+	optAx    bool   // ground instance that is rarely needed and sometimes derails the solver: left out in the first attempt
 }
 
 type Obligation struct {
@@ -41,6 +42,8 @@ type Obligation struct {
 	noHelpers   bool
 	CTI         *Obligation // lane loops: the failed invariant-step clause whose model gives a concrete lane input
 	absMul      bool // symbolic multiplications abstracted to an uninterpreted function
+	noOptAx     bool // ground map-value allocation instances left out as well
+	noHeapAx    bool // quantified heap axioms left out (first attempt; sound weakening)
 	excludeTags map[string]bool
 	Helpers     []*Obligation // lemmas assumed (when discharged) while deciding this obligation
 	WantSat     bool          // cover / vacuity queries: expected answer is sat
@@ -259,7 +262,10 @@ func (o *Obligation) QueryF(withModel bool, dropQuant bool) string {
 		if a.tag != "" && (drop[a.tag] || o.excludeTags[a.tag] || c.deadTags[a.tag]) {
 			continue
 		}
-		if a.heapAx && (o.allocs == 0 || !o.quantHeap) {
+		if a.optAx && o.noHeapAx && o.noOptAx {
+			continue
+		}
+		if a.heapAx && (o.allocs == 0 || !o.quantHeap || o.noHeapAx) {
 			continue
 		}
 		if a.groundAx && o.allocs == 0 {
